@@ -277,6 +277,12 @@ def _remove_matched_tasks(
         )
         LOG.warning(f"Task(s) not removable: {tasks_str} {fnums_str}")
 
+    if removed:
+        # Flush the removal to the DB now, so that a removed task that
+        # respawns before the end of this main loop iteration (e.g. off a
+        # parent output processed next) is not held to its old history.
+        schd.workflow_db_mgr.process_queued_ops()
+
     if removed and schd.pool.compute_runahead():
         schd.pool.release_runahead_tasks()
 
